@@ -17,6 +17,17 @@
 (* with compression negotiated, UTF-8 validity of text payloads, close bodies  *)
 (* of one byte, close code 1014.                                               *)
 (*                                                                             *)
+(* Configuration that DOES matter: `pmd` - the permessage-deflate extension of  *)
+(* RFC 7692 was negotiated in the opening handshake.  RFC 6455 5.2: a reserved  *)
+(* bit MUST be 0 "unless an extension is negotiated that defines meanings for   *)
+(* non-zero values"; RFC 7692 6 defines exactly one: RSV1 on the FIRST frame of *)
+(* a data message says that the message is compressed ("An endpoint MUST NOT    *)
+(* set the Per-Message Compressed bit of control frames and non-first fragments *)
+(* of a data message.  An endpoint receiving such a frame MUST _Fail the        *)
+(* WebSocket Connection_").  RSV2 / RSV3 have no meaning under any setting.     *)
+(* The payload of a compressed message is a DEFLATE stream (rendered by the     *)
+(* replayer); lengths, and so the read limit, are those on the wire.            *)
+(*                                                                             *)
 (* Configuration that must NOT matter: `bufsize` is the size of the read       *)
 (* buffer the application configured (0 = the default).  RFC 6455 knows no     *)
 (* such thing: what is delivered, answered and rejected is a function of the   *)
@@ -35,12 +46,20 @@ CONSTANTS
   AcceptTopBit,     \* named deviation C14/length-top-bit: a 64-bit length with the top bit set is taken as an empty frame
   LimitPerFrame,    \* named deviation C14/limit-per-frame: the limit is compared with the frame, not the message
   PongEmpty,        \* named deviation C14/pong-empty: pongs do not carry the ping's payload
+  Compress,         \* subset of BOOLEAN: permessage-deflate negotiated or not
+  Rsv1Shadows,      \* named deviation C14/rsv1-shadows-reserved-bits: with the extension negotiated and RSV1 set, RSV2 and
+                    \* RSV3 are not looked at
+  Rsv1Anywhere,     \* named deviation C14/rsv1-on-non-first-frame-accepted: with the extension negotiated RSV1 is ignored
+                    \* on control frames and continuation frames instead of failing the connection
   BufSizes,         \* read buffer sizes the application may configure; 0 = default
   CtlNeedsBuffer    \* named deviation C14/control-needs-buffer: a control frame whose payload is longer than the
                     \* configured read buffer cannot be taken in: the read fails, nothing is answered
 
 VARIABLES
   role, limit,
+  pmd,         \* permessage-deflate negotiated (RFC 7692)
+  zopen,       \* the message in progress is compressed (its first frame carried RSV1)
+  taken,       \* observation: {[op, rsv]} of the frames the receiver took in (did not fail on)
   bufsize,     \* configured size of the read buffer (0: default); NO action below reads it
   open,        \* 0: no message in progress; 1 / 2: a fragmented text / binary message is in progress
   accLen,      \* payload bytes of the message in progress so far
@@ -56,7 +75,7 @@ VARIABLES
   pings,       \* observation: payloads of the pings processed <<[n, id]>>
   fins         \* observation: number of final data frames accepted
 
-vars == <<role, limit, bufsize, open, accLen, frags, failed, alts, cc, delivered, back, pending, ended, n, pings, fins>>
+vars == <<role, limit, pmd, zopen, taken, bufsize, open, accLen, frags, failed, alts, cc, delivered, back, pending, ended, n, pings, fins>>
 
 \* ---------------------------------------------------------------- frames
 Lengths(v) == IF v <= 125 THEN [form |-> 7, val |-> v, big |-> "no"]
@@ -76,6 +95,8 @@ CloseFr(fin, rsv, masked, code, reason) ==
 IsControl(op) == op >= 8                       \* 5.2: 0x8-0xF are control opcodes
 IsData(op)    == op \in {0, 1, 2}
 Reserved(op)  == op \in (3..7) \cup (11..15)
+Rsv1(f)       == f.rsv >= 4                    \* rsv = 4 * RSV1 + 2 * RSV2 + RSV3
+Rsv23(f)      == f.rsv % 4 # 0
 TopBit(f)     == f.len.big \in {"p63", "p64m1"}
 Giant(f)      == f.len.big = "p63m1"
 
@@ -121,9 +142,17 @@ Utf8Ok(s) ==
 ValidCloseCode(c) == c \in {1000, 1001, 1002, 1003, 1007, 1008, 1009, 1010, 1011, 1012, 1013} \cup (3000..4999)
 
 \* ---------------------------------------------------------------- the rules
+\* Reserved bits: without the extension every bit is reserved. With it, RSV1 has a meaning on the first frame of a
+\* data message (opcode 1 / 2) and nowhere else; RSV2 and RSV3 never have one.
+RsvBroken(f) ==
+  IF pmd /\ Rsv1(f)
+  THEN \/ (Rsv23(f) /\ ~Rsv1Shadows)
+       \/ (f.op \notin {1, 2} /\ ~Rsv1Anywhere)
+  ELSE f.rsv # 0
+
 \* Header rules, in the order of the fields of section 5.2.
 Broken(f) ==
-  [ rsv       |-> f.rsv # 0,                              \* 5.2: MUST be 0 unless an extension is negotiated
+  [ rsv       |-> RsvBroken(f),                           \* 5.2: MUST be 0 unless an extension is negotiated
     opcode    |-> Reserved(f.op),                         \* 5.2: unknown opcode -> fail the connection
     ctlLen    |-> IsControl(f.op) /\ f.len.form # 7,      \* 5.5: control payload <= 125
     ctlFrag   |-> IsControl(f.op) /\ ~f.fin,              \* 5.5: control frames MUST NOT be fragmented
@@ -172,7 +201,8 @@ Pong(l, id) == [t |-> "pong", code |-> 0, n |-> l, id |-> id]       \* 5.5.3: id
 
 \* ---------------------------------------------------------------- actions
 Init ==
-  /\ role \in Roles /\ limit \in Limits /\ bufsize \in BufSizes
+  /\ role \in Roles /\ limit \in Limits /\ bufsize \in BufSizes /\ pmd \in Compress
+  /\ zopen = FALSE /\ taken = {}
   /\ open = 0 /\ accLen = 0 /\ frags = <<>>
   /\ failed = "no" /\ alts = {} /\ cc = 0
   /\ delivered = <<>> /\ back = <<>>
@@ -182,38 +212,42 @@ Init ==
 Fail(class, allowed, frame) ==
   /\ failed' = class /\ alts' = allowed
   /\ back' = Append(back, frame)
-  /\ UNCHANGED <<open, accLen, frags, cc, delivered, pending, pings, fins>>
+  /\ UNCHANGED <<open, accLen, frags, cc, delivered, pending, pings, fins, zopen, taken>>
 
 \* (deviation only) the frame cannot be taken in: the reader gives up without a word
 FailSilent(class, allowed) ==
   /\ failed' = class /\ alts' = allowed
-  /\ UNCHANGED <<open, accLen, frags, cc, delivered, back, pending, pings, fins>>
+  /\ UNCHANGED <<open, accLen, frags, cc, delivered, back, pending, pings, fins, zopen, taken>>
 
 DataFrame(f, id) ==
   LET typ == IF f.op = 0 THEN open ELSE f.op
+      z   == IF f.op = 0 THEN zopen ELSE pmd /\ Rsv1(f)      \* RFC 7692 6: the first frame says it for the whole message
       l   == EffLen(f)
       fr  == Append(frags, [n |-> l, id |-> id, big |-> f.len.big])
   IN  IF Giant(f)
       THEN \* 2^63-1 bytes are announced; they can never all arrive, so nothing of this message is ever delivered
            /\ pending' = TRUE
-           /\ UNCHANGED <<open, accLen, frags, failed, alts, cc, delivered, back, pings, fins>>
+           /\ UNCHANGED <<open, accLen, frags, failed, alts, cc, delivered, back, pings, fins, zopen, taken>>
       ELSE /\ IF f.fin
-              THEN /\ delivered' = Append(delivered, [type |-> typ, len |-> accLen + l, frags |-> fr])
-                   /\ open' = 0 /\ accLen' = 0 /\ frags' = <<>> /\ fins' = fins + 1
-              ELSE /\ open' = typ /\ accLen' = accLen + l /\ frags' = fr
+              THEN /\ delivered' = Append(delivered, [type |-> typ, len |-> accLen + l, frags |-> fr, z |-> z])
+                   /\ open' = 0 /\ accLen' = 0 /\ frags' = <<>> /\ fins' = fins + 1 /\ zopen' = FALSE
+              ELSE /\ open' = typ /\ accLen' = accLen + l /\ frags' = fr /\ zopen' = z
                    /\ UNCHANGED <<delivered, fins>>
+           /\ taken' = taken \cup {[op |-> f.op, rsv |-> f.rsv]}
            /\ UNCHANGED <<failed, alts, cc, back, pending, pings>>
 
 PingFrame(f, id) ==
   /\ back' = Append(back, Pong(IF PongEmpty THEN 0 ELSE f.len.val, id))
   /\ pings' = Append(pings, [n |-> f.len.val, id |-> id])
-  /\ UNCHANGED <<open, accLen, frags, failed, alts, cc, delivered, pending, fins>>
+  /\ taken' = taken \cup {[op |-> f.op, rsv |-> f.rsv]}
+  /\ UNCHANGED <<open, accLen, frags, failed, alts, cc, delivered, pending, fins, zopen>>
 
 CloseFrame(f) ==   \* header rules and body rules hold
   /\ failed' = "close" /\ alts' = {"close"}
   /\ cc' = IF f.body.code = 0 THEN 1005 ELSE f.body.code          \* 7.1.5: 1005 = no status code present
   /\ back' = Append(back, CloseEcho(f.body.code))
-  /\ UNCHANGED <<open, accLen, frags, delivered, pending, pings, fins>>
+  /\ taken' = taken \cup {[op |-> f.op, rsv |-> f.rsv]}
+  /\ UNCHANGED <<open, accLen, frags, delivered, pending, pings, fins, zopen>>
 
 \* the reader is working: frame f is judged
 Judge(f, id) ==
@@ -222,24 +256,25 @@ Judge(f, id) ==
   ELSE IF BufShort(f)       THEN FailSilent("io", {"io"})
   ELSE IF IsData(f.op)      THEN DataFrame(f, id)
   ELSE IF f.op = 9          THEN PingFrame(f, id)
-  ELSE IF f.op = 10         THEN UNCHANGED <<open, accLen, frags, failed, alts, cc, delivered, back, pending, pings, fins>>
+  ELSE IF f.op = 10         THEN /\ taken' = taken \cup {[op |-> f.op, rsv |-> f.rsv]}
+                                 /\ UNCHANGED <<open, accLen, frags, failed, alts, cc, delivered, back, pending, pings, fins, zopen>>
   ELSE IF CloseBroken(f)    THEN Fail("protocol", Classes(f), Close1002)
   ELSE CloseFrame(f)
 
 Frame(f) ==
   /\ ~ended /\ n < MaxFrames
   /\ n' = n + 1
-  /\ UNCHANGED <<role, limit, bufsize, ended>>
+  /\ UNCHANGED <<role, limit, pmd, bufsize, ended>>
   /\ IF failed # "no" \/ pending
      THEN \* after a failure nothing is read any more; inside a giant frame everything is payload
-          UNCHANGED <<open, accLen, frags, failed, alts, cc, delivered, back, pending, pings, fins>>
+          UNCHANGED <<open, accLen, frags, failed, alts, cc, delivered, back, pending, pings, fins, zopen, taken>>
      ELSE Judge(f, n + 1)
 
 \* The stream ends at a frame boundary (also: inside the payload of a giant frame).
 CutBoundary ==
   /\ ~ended /\ ended' = TRUE
   /\ IF failed = "no" THEN failed' = "io" /\ alts' = {"io"} ELSE UNCHANGED <<failed, alts>>
-  /\ UNCHANGED <<role, limit, bufsize, open, accLen, frags, cc, delivered, back, pending, n, pings, fins>>
+  /\ UNCHANGED <<role, limit, pmd, zopen, taken, bufsize, open, accLen, frags, cc, delivered, back, pending, n, pings, fins>>
 
 \* Classes of outcome when the stream ends somewhere inside frame f (header or payload): an i/o error,
 \* or the failure the frame causes anyway if the receiver already saw enough of it. Never a delivery, never a pong.
@@ -254,7 +289,7 @@ CutIn(f) ==
      ELSE \E c \in CutClasses(f) :
             /\ failed' = (IF c = "length" THEN "protocol" ELSE c) /\ alts' = CutClasses(f)
             /\ back' = (CASE c = "io" -> back [] c = "limit" -> Append(back, Close1009) [] OTHER -> Append(back, Close1002))
-  /\ UNCHANGED <<role, limit, bufsize, open, accLen, frags, cc, delivered, pending, pings, fins>>
+  /\ UNCHANGED <<role, limit, pmd, zopen, taken, bufsize, open, accLen, frags, cc, delivered, pending, pings, fins>>
 
 \* what the peer may send next: anything of its alphabet while the reader works, the probes afterwards
 Sendable == IF failed # "no" \/ pending THEN Probe(role) ELSE Alpha(role, limit)
@@ -272,7 +307,9 @@ TypeOk ==
   /\ (open = 0) => (accLen = 0 /\ frags = <<>>)
   /\ (failed = "no") <=> (alts = {})
   /\ (cc # 0) <=> (failed = "close")
-  /\ bufsize \in BufSizes
+  /\ bufsize \in BufSizes /\ pmd \in Compress /\ zopen \in BOOLEAN
+  /\ (open = 0) => ~zopen
+  /\ zopen => pmd
 
 \* after the first failure nothing more is delivered, nothing more is written, the failure stays
 Sticky == [][failed # "no" => (failed' = failed /\ delivered' = delivered /\ back' = back /\ cc' = cc)]_vars
@@ -312,5 +349,10 @@ CutDeliversNothing == [][ended' => delivered' = delivered]_vars
 \* (buffer sizes): "delivers exactly the messages a conformant receiver would, up to the first rule violation".
 NoSpontaneousFailure == failed = "io" => ended
 \* the observable outcome; BufferBlind (MC_WsReaderBuf.tla): two receivers that differ in bufsize only agree on it
-Observable == <<open, accLen, frags, failed, alts, cc, delivered, back, pending, ended, n, pings, fins>>
+\* no frame with a reserved bit set is ever taken in - except RSV1 on the first frame of a data message when the
+\* extension that gives it a meaning was negotiated; and only such a message is delivered as a compressed one
+ReservedBitsOk ==
+  /\ \A x \in taken : x.rsv = 0 \/ (pmd /\ x.rsv = 4 /\ x.op \in {1, 2})
+  /\ \A i \in 1..Len(delivered) : delivered[i].z => pmd
+Observable == <<zopen, open, accLen, frags, failed, alts, cc, delivered, back, pending, ended, n, pings, fins>>
 =============================================================================
